@@ -58,6 +58,18 @@ structure Call where
   arg : CallArg
   deriving DecidableEq, Repr, Inhabited
 
+/-- The shape the data path of a slice operation must have, however its accesses are split up: the grant of `count` slots
+comes first, then nothing but accesses by the caller's closure (at least one), and the advance by `count` — the local move
+followed by the publication — comes last. -/
+def Call.bracketed (grant : CallName) (l : List Call) : Bool :=
+  match l with
+  | g :: rest =>
+    (g.name == grant && g.arg == .count) &&
+    (match rest.reverse with
+     | a :: mid => (a.name == .advance && a.arg == .count) && !mid.isEmpty && mid.all (fun c => c.name == .userF)
+     | [] => false)
+  | [] => false
+
 /-- What a push form does to the slot(s) it was granted. -/
 inductive StoreKind
   | assign             -- `*p = v`: destroys the old content first
@@ -144,6 +156,34 @@ structure BufInit where
   counterZero : Bool      -- the counter of live iterators starts at 0
   lenIsStorageLen : Bool  -- `inner_len` is the storage's length
   refusesEmpty : Bool     -- `assert!(value.len() > 0)`
+  deriving DecidableEq, Repr, Inhabited
+
+/-- What the primitives of a storage cell do, as the translator recognises it from their source (any of the usual
+spellings; the text itself is kept as a comment in the generated file). The model's `takeInner`, `duplicate`, `isZero`,
+cell destructor and slice copy are written to these facts; their behaviour is compared with the real code on every run. -/
+structure CellFacts where
+  checkZeroedAllBytes : Bool   -- `check_zeroed` compares each of the `size_of::<T>()` bytes with 0 and nothing else
+  takeInnerLeavesZeros : Bool  -- `take_inner` moves the content out and overwrites the slot with zeros
+  duplicateLeavesCell : Bool   -- `inner_duplicate` is a bitwise read; the cell keeps its bytes
+  dropSkipsZeroed : Bool       -- the cell destructor destroys the content unless `check_zeroed`
+  copyWholeSlice : Bool        -- `copy_from_slice_unchecked(src, dst)` copies all `src.len()` items from start to start
+  deriving DecidableEq, Repr, Inhabited
+
+/-- How the heap constructors size the buffer. -/
+structure CtorFacts where
+  fromVecKeepsAll : Bool             -- `HeapStorage::from(Vec<T>)`: the whole vector becomes the boxed slice
+  rangeMaxVmemIsPageMultiple : Bool  -- `get_range_max(capacity)` under `vmem` is `get_page_size_mul(capacity)`
+  rangeMaxPlainIsCapacity : Bool     -- … and `capacity` itself otherwise
+  fromWrapsStorage : Bool            -- `from(Vec<T>)` of a heap buffer is `_from(HeapStorage::from(value))`
+  newZeroedHasRangeMax : Bool        -- `new_zeroed(capacity)` builds `get_range_max(capacity)` zeroed cells
+  defaultHasRangeMax : Bool          -- `default(capacity)` builds `get_range_max(capacity)` default items
+  deriving DecidableEq, Repr, Inhabited
+
+/-- `HeapStorage::new` under `vmem`. -/
+structure VmemNewFacts where
+  mapsSource : Bool                    -- the mapping is built by `vmem_helper::new(&value)`
+  lenIsSourceLen : Bool                -- the recorded length is `value.len()`
+  freesSourceWithoutDestroying : Bool  -- the source box is deallocated as `MaybeUninit` cells (its items now live in the mapping)
   deriving DecidableEq, Repr, Inhabited
 
 /-- Landmarks of `MRBFuture::poll`: a loop with one attempt site per calling convention, one waker registration placed after
